@@ -150,7 +150,7 @@ func (n *Node) DeputyAt(h uint32, rank int) *Deputy {
 	if rank < 0 || rank >= len(nodes) {
 		return nil
 	}
-	for _, d := range n.World.Deputies {
+	for _, d := range n.World.AllDeputies() {
 		if string(d.NodeID) == string(nodes[rank].NodeID) {
 			return d
 		}
